@@ -59,6 +59,11 @@ def parseExhaustive : ExhVal → Except Reject Exhaustiveness
   | .ident "conditional" => .ok .conditional
   | _ => .error (.error "The specified 'exhaustive' is invalid")
 
+/-- `usize::from_str` also accepts a leading `+` -/
+def stripPlus : List Char → List Char
+  | '+' :: r => r
+  | r => r
+
 /-- `Config::parse` for one argument -/
 def Config.parse (c : Config) : EnumArg → Except Reject Config
   | .exhaustive sep val =>
@@ -70,8 +75,7 @@ def Config.parse (c : Config) : EnumArg → Except Reject Config
       | some value =>
         match value.toList with
         | 'u' :: rest =>
-          let digits := match rest with | '+' :: r => r | r => r
-          match parseUsize (String.ofList digits) with
+          match parseUsize (String.ofList (stripPlus rest)) with
           | some size => .ok { c with explicitBits := some { isIdent := isIdent, size := size } }
           | none => .error (.error "Invalid attribute")
         | _ => .error (.error "Invalid attribute")
